@@ -1,5 +1,6 @@
 import PicoProofs.EndToEnd
 import PicoProofs.Tie
+import PicoModel.Sample
 /-
 C10 — Unknown fields never disturb known ones; captured ones are forwarded intact.
 -/
@@ -61,5 +62,14 @@ theorem C10_unmarshal_skips_unknown (S : Schema) (hS : S.supported = true) (id :
     have e2 := hval' he'
     rw [heq, e2] at e1
     exact (Option.some.inj e1).symm
+
+/-- non-vacuity: unknown fields of several wire types — a varint, a group holding a varint field, a
+fixed32 with a field number above 63 — each a whole record, each unknown to the message; a capturing
+and a non-capturing message -/
+example : Spec.parse1 [0x78, 1] = some (⟨15, 0, [1]⟩, []) ∧ Spec.findField (S1.msg 0).fields 15 = none := by decide +kernel
+example : Spec.parse1 [0x7b, 8, 1, 0x7c] = some (⟨15, 3, [8, 1, 0x7c]⟩, []) := by decide +kernel
+example : Spec.parse1 [0xa5, 6, 1, 2, 3, 4] = some (⟨100, 5, [1, 2, 3, 4]⟩, []) ∧
+    Spec.findField (S1.msg 1).fields 100 = none := by decide +kernel
+example : (S1.msg 0).capture = false ∧ (S1.msg 1).capture = true := by decide +kernel
 
 end Pico.Props
